@@ -458,8 +458,10 @@ META = {
               "rejected_pipelined_write_surfaces_by_close, client_never_hangs. get/getfo without prefetch under read "
               "faults and short reads: normal return => local bytes = remote bytes; a failed read / stat / open raises "
               "(getfo_normal_return_implies_local_equals_remote, get_..., failed_read_raises, "
-              "failed_stat_or_open_raises). PARTIAL only in this: get/getfo *with* prefetching under read faults is not "
-              "in a Lean model (C28's model has an honest server); that path is covered by the fault-injecting oracle."),
+              "failed_stat_or_open_raises). getfo with prefetching (the default) on C28's concurrent model extended with "
+              "failing requests: for every schedule, cap, short-read and failure pattern, if no read raised and the last "
+              "read came back empty, the concatenation of everything read is the remote file "
+              "(getfo_with_prefetch_normal_return_implies_local_equals_remote)."),
     "note": ("Trusted: Lean kernel + 3 standard axioms; lockstep harnesses (real client code against the real "
              "SFTPServer._process run inline, no threads) for write programs and for getfo/get; server answers every "
              "request once in order; the confirm stat of put is not in the composed theorem (it sends no write and can "
